@@ -22,9 +22,11 @@ class Harness:
     expect_refuted: bool = False    # the `assert False` twin of the self-test
 
     def budget_for(self, tier):
+        import os
+        scale = float(os.environ.get("VF_BUDGET_SCALE", "1") or 1)     # smoke runs of a whole tier: VF_BUDGET_SCALE=0.02
         if tier == "thorough" and self.budget_thorough:
-            return self.budget_thorough
-        return self.budget
+            return self.budget_thorough * scale
+        return self.budget * scale
 
 
 def load(prop):
